@@ -152,6 +152,8 @@ NoBlocked == \A b \in blocked : b[1] \notin {"pubret", "subret"}
 CloseReturns == \A b \in blocked : b[1] # "closeret"
 
 (* (ii) conformance: every observed step is a step of the specification *)
-Conform == [][Next]_vars
+(* (a line that leaves the Bus variables unchanged is a stuttering step; Bus!Finished, the only *)
+(* other disjunct of Bus!Next, is itself a stuttering step, so it is left out: ENABLED is slow)   *)
+Conform == [][UNCHANGED vars \/ Internal \/ Env]_vars
 
 =============================================================================
